@@ -16,6 +16,8 @@ def main():
         job = json.load(f)
     # generous wall-clock watchdog: dump stacks and die -> driver says inconclusive
     faulthandler.dump_traceback_later(job.get("timeout_s", 3000) + 30, exit=True)
+    from vlab import reach
+    rh = reach.start(os.environ.get("VERIF_REPO", "/repo"))
     chk = importlib.import_module(f"vlab.checks.{pid.lower()}")
     try:
         res = chk.run_slice(job)
@@ -23,6 +25,7 @@ def main():
         traceback.print_exc()
         sys.exit(3)
     res["windex"] = job["windex"]
+    res["reach"] = reach.collect(rh)
     tmp = outfile + ".tmp"
     with open(tmp, "w") as f:
         json.dump(res, f, default=str)
